@@ -113,11 +113,27 @@ type opS struct {
 	path, method string
 	node         *V
 	hasID        bool
+	idProvided   bool // a referenced path parameter component supplies {id}
+	params       int
 }
 
 type slot struct {
 	node *V
 	file string
+	ord  int // creation number: a slot may only refer to components with a smaller id (keeps the graph acyclic)
+}
+
+func (b *gb) slot(n *V, file string) slot { return slot{n, file, b.id()} }
+
+// free lists the slots that may refer to c without closing a cycle.
+func free(ss []slot, c *comp) []slot {
+	var out []slot
+	for _, s := range ss {
+		if s.ord > c.id {
+			out = append(out, s)
+		}
+	}
+	return out
 }
 
 type gb struct {
@@ -176,105 +192,6 @@ func (b *gb) ref(c *comp, fromFile string) *V {
 		return O("$ref", "#"+frag)
 	}
 	return O("$ref", relPath(fromFile, c.file)+"#"+frag)
-}
-
-// place stores body as a component of the kind and returns it (possibly behind a chain of aliases).
-func (b *gb) place(kind string, body *V, allowWeird bool) *comp {
-	id := b.id()
-	name := fmt.Sprintf("%s%d", strings.ToUpper(kind[:1])+kind[1:3], id)
-	c := &comp{kind: kind, body: body, id: id}
-	put := func(file string, container string, nm string) *comp {
-		f := b.fileRoot(file)
-		m := ensurePath(f, container, plural[kind])
-		set(m, nm, body)
-		c.file, c.ptr = file, []string{container, plural[kind], nm}
-		return c
-	}
-	weird := func() string {
-		return ev.Pick(b.rng, weirdNames) + fmt.Sprint(id)
-	}
-	r := b.rng.Intn(100)
-	switch b.layout {
-	case "local":
-		if allowWeird && r < 30 {
-			put(b.root, "x-defs", weird())
-		} else {
-			put(b.root, "components", name)
-		}
-	case "two":
-		switch {
-		case r < 30:
-			put(b.root, "components", name)
-		case r < 40 && allowWeird:
-			put(b.root, "x-defs", weird())
-		case r < 70:
-			put(b.other, "components", name)
-		case r < 88 && allowWeird:
-			put(b.other, "defs", weird())
-		default:
-			// the whole file is the component
-			fn := fmt.Sprintf("parts/%s.yaml", name)
-			if b.rng.Chance(40) {
-				fn = fmt.Sprintf("parts/%s.json", name)
-			}
-			b.files[fn] = body
-			c.file, c.ptr = fn, nil
-		}
-	case "three":
-		switch {
-		case r < 25:
-			put(b.root, "components", name)
-		case r < 45:
-			put(b.mid, "defs", name)
-		default:
-			// real body in mid, alias in deep: deep refers to "../b.yaml#/defs/..."
-			put(b.mid, "defs", name)
-			real := *c
-			realp := &real
-			al := &comp{kind: kind, id: id, prim: c.prim}
-			f := b.fileRoot(b.deep)
-			m := ensurePath(f, "components", plural[kind])
-			set(m, name, b.ref(realp, b.deep))
-			al.file, al.ptr = b.deep, []string{"components", plural[kind], name}
-			al.body = body
-			b.comps = append(b.comps, realp)
-			realp.sites = 2 // only reachable through the alias; do not top up
-			c = al
-		}
-	}
-	if kind == "pathItem" && c.file == b.root && len(c.ptr) > 0 && c.ptr[0] == "components" {
-		b.v31 = true
-	}
-	// chain of aliases in front (refs to refs), length 1..3
-	if b.rng.Chance(30) && !(kind == "securityScheme") {
-		n := 1 + b.rng.Intn(3)
-		for i := 0; i < n; i++ {
-			target := c
-			aid := b.id()
-			an := fmt.Sprintf("%sAl%d", strings.ToUpper(kind[:1])+kind[1:3], aid)
-			file := b.root
-			if b.layout != "local" && b.rng.Chance(40) {
-				file = b.other
-				if b.layout == "three" {
-					file = b.mid
-				}
-			}
-			container := "components"
-			if file != b.root {
-				container = "defs"
-			}
-			f := b.fileRoot(file)
-			m := ensurePath(f, container, plural[kind])
-			set(m, an, b.ref(target, file))
-			target.sites = 2 // referenced through the chain
-			b.comps = append(b.comps, target)
-			c = &comp{kind: kind, id: aid, file: file, ptr: []string{container, plural[kind], an}, body: body, prim: target.prim, pathP: target.pathP}
-			if kind == "pathItem" && file == b.root {
-				b.v31 = true
-			}
-		}
-	}
-	return c
 }
 
 // ---------------------------------------------------------------- bodies
@@ -374,7 +291,7 @@ func (b *gb) schemaBody(file string, depth int) (*V, bool) {
 		if r.Chance(10) {
 			set(s, "additionalProperties", false)
 		}
-		b.objs = append(b.objs, slot{s, file})
+		b.objs = append(b.objs, b.slot(s, file))
 		return s, false
 	case 3:
 		s := O("type", "array", "items", nestedOrPrim())
@@ -486,7 +403,7 @@ func (b *gb) schemaOrRef(file string, wantPrim bool) *V {
 
 func (b *gb) mediaJSON(file string) *V {
 	m := O("schema", b.schemaOrRef(file, false))
-	b.medias = append(b.medias, slot{m, file})
+	b.medias = append(b.medias, b.slot(m, file))
 	return m
 }
 
@@ -544,7 +461,7 @@ func (b *gb) responseBody(file string) *V {
 	if b.rng.Chance(80) {
 		set(r, "content", O("application/json", b.mediaJSON(file)))
 	}
-	b.resps = append(b.resps, slot{r, file})
+	b.resps = append(b.resps, b.slot(r, file))
 	return r
 }
 
@@ -622,9 +539,6 @@ func (b *gb) newOp(method string, withID bool) *opS {
 		}
 	}
 	op := O("operationId", fmt.Sprintf("op%d", id))
-	if withID && b.rng.Chance(1) {
-		// never: path parameters come from sites or below
-	}
 	set(op, "responses", O())
 	paths := ensureObj(b.fileRoot(b.root), "paths")
 	pi := ensureObj(paths, p)
@@ -634,6 +548,23 @@ func (b *gb) newOp(method string, withID bool) *opS {
 	return o
 }
 
+// pickOp returns an existing operation satisfying ok, or a new one.
+func (b *gb) pickOp(method string, withID bool, ok func(*opS) bool) *opS {
+	var cands []*opS
+	for _, o := range b.ops {
+		if o.hasID == withID && (method == "" || o.method == method) && ok(o) {
+			cands = append(cands, o)
+		}
+	}
+	if len(cands) > 0 && b.rng.Chance(60) {
+		return ev.Pick(b.rng, cands)
+	}
+	if method == "" {
+		method = ev.Pick(b.rng, []string{"get", "post", "put", "delete", "patch"})
+	}
+	return b.newOp(method, withID)
+}
+
 // finishOps gives every operation what it still lacks to be valid.
 func (b *gb) finishOps() {
 	for _, o := range b.ops {
@@ -641,30 +572,400 @@ func (b *gb) finishOps() {
 		if len(resp.Members) == 0 {
 			set(resp, "200", b.responseBody(b.root))
 		}
-		if o.hasID {
-			// is a path parameter "id" present at operation or path-item level?
-			has := false
-			check := func(arr *V) {
-				if arr == nil {
-					return
-				}
-				for _, e := range arr.Elems {
-					if e.Get("$ref") != nil {
-						if strings.Contains(e.Get("$ref").Str, "#") && e.Get("x-c07-path") != nil {
-							has = true
-						}
-						continue
-					}
-					if n := e.Get("name"); n != nil && n.Str == "id" {
-						has = true
+		if o.hasID && !o.idProvided {
+			ps := ensureArr(o.node, "parameters")
+			ps.Elems = append(ps.Elems, O("name", "id", "in", "path", "required", true, "schema", O("type", "string")))
+		}
+	}
+}
+
+// ---------------------------------------------------------------- sites
+
+var respCodes = []string{"200", "201", "202", "400", "404", "409", "default", "4XX", "5XX"}
+
+// attach creates one more site for c. It reports false when the kind has no free site left.
+func (b *gb) attach(c *comp, siteNo int) bool {
+	r := b.rng
+	letter := string(rune('A' + siteNo))
+	switch c.kind {
+	case "header":
+		// a response that does not use this component yet
+		var cands []slot
+		for _, s := range free(b.resps, c) {
+			used := false
+			if h := s.node.Get("headers"); h != nil {
+				for _, m := range h.Members {
+					if strings.HasPrefix(m.Name, fmt.Sprintf("X-H%d-", c.id)) {
+						used = true
 					}
 				}
 			}
-			check(o.node.Get("parameters"))
-			if !has && !o.pathParamViaRef {
-				ps := ensureArr(o.node, "parameters")
-				ps.Elems = append(ps.Elems, O("name", "id", "in", "path", "required", true, "schema", O("type", "string")))
+			if !used {
+				cands = append(cands, s)
+			}
+		}
+		if len(cands) == 0 || r.Chance(30) {
+			o := b.pickOp("", false, func(o *opS) bool { return len(o.node.Get("responses").Members) < 3 })
+			rb := b.responseBody(b.root)
+			b.addResponse(o, rb)
+			cands = []slot{{rb, b.root, b.id()}}
+		}
+		s := ev.Pick(r, cands)
+		set(ensureObj(s.node, "headers"), fmt.Sprintf("X-H%d-%s", c.id, letter), b.ref(c, s.file))
+	case "parameter":
+		if c.pathP {
+			o := b.pickOp("", true, func(o *opS) bool { return !o.idProvided })
+			o.idProvided = true
+			ps := ensureArr(o.node, "parameters")
+			ps.Elems = append(ps.Elems, b.ref(c, b.root))
+			return true
+		}
+		o := b.pickOp("", r.Chance(30), func(o *opS) bool { return o.params < 3 && !b.opUses(o, c) })
+		o.params++
+		ps := ensureArr(o.node, "parameters")
+		ps.Elems = append(ps.Elems, b.ref(c, b.root))
+		b.markUse(o, c)
+	case "response":
+		o := b.pickOp("", r.Chance(30), func(o *opS) bool { return len(o.node.Get("responses").Members) < 4 })
+		resp := o.node.Get("responses")
+		for _, code := range shuffled(r, respCodes) {
+			if resp.Get(code) == nil {
+				set(resp, code, b.ref(c, b.root))
+				return true
+			}
+		}
+		return false
+	case "requestBody":
+		m := ev.Pick(r, []string{"post", "put", "patch"})
+		o := b.pickOp(m, r.Chance(30), func(o *opS) bool { return o.node.Get("requestBody") == nil })
+		set(o.node, "requestBody", b.ref(c, b.root))
+	case "example":
+		if len(free(b.medias, c)) == 0 || r.Chance(25) {
+			o := b.pickOp("", false, func(o *opS) bool { return len(o.node.Get("responses").Members) < 3 })
+			b.addResponse(o, b.responseBodyWithContent(b.root))
+		}
+		var cands []slot
+		for _, s := range free(b.medias, c) {
+			used := false
+			if e := s.node.Get("examples"); e != nil {
+				for _, m := range e.Members {
+					if strings.HasPrefix(m.Name, fmt.Sprintf("ex%d", c.id)) {
+						used = true
+					}
+				}
+			}
+			if !used {
+				cands = append(cands, s)
+			}
+		}
+		if len(cands) == 0 {
+			o := b.newOp("get", false)
+			b.addResponse(o, b.responseBodyWithContent(b.root))
+			cands = []slot{b.medias[len(b.medias)-1]}
+		}
+		s := ev.Pick(r, cands)
+		set(ensureObj(s.node, "examples"), fmt.Sprintf("ex%d%s", c.id, letter), b.ref(c, s.file))
+	case "pathItem":
+		root := b.fileRoot(b.root)
+		if b.rng.Chance(25) && !c.pathP {
+			b.v31 = true
+			set(ensureObj(root, "webhooks"), fmt.Sprintf("hook%d%s", c.id, letter), b.ref(c, b.root))
+			return true
+		}
+		p := fmt.Sprintf("/pi%d%s", c.id, strings.ToLower(letter))
+		if c.pathP {
+			p += "/{id}"
+		}
+		set(ensureObj(root, "paths"), p, b.ref(c, b.root))
+	case "securityScheme":
+		root := b.fileRoot(b.root)
+		nm := fmt.Sprintf("Sec%d%s", c.id, letter)
+		set(ensurePath(root, "components", "securitySchemes"), nm, b.ref(c, b.root))
+		o := b.pickOp("", false, func(o *opS) bool { return o.node.Get("security") == nil })
+		set(o.node, "security", A(O(nm, A())))
+	case "schema":
+		objs := free(b.objs, c)
+		switch k := r.Intn(5); {
+		case k == 0 && len(objs) > 0:
+			s := ev.Pick(r, objs)
+			set(ensureObj(s.node, "properties"), fmt.Sprintf("s%d%s", c.id, strings.ToLower(letter)), b.ref(c, s.file))
+		case k == 1 && len(objs) > 0:
+			s := ev.Pick(r, objs)
+			set(ensureObj(s.node, "properties"), fmt.Sprintf("l%d%s", c.id, strings.ToLower(letter)), O("type", "array", "items", b.ref(c, s.file)))
+		case k == 2 && c.prim:
+			o := b.pickOp("", false, func(o *opS) bool { return o.params < 3 })
+			o.params++
+			ps := ensureArr(o.node, "parameters")
+			ps.Elems = append(ps.Elems, O("name", fmt.Sprintf("q%d%s", c.id, strings.ToLower(letter)), "in", "query", "schema", b.ref(c, b.root)))
+		case k == 3:
+			m := ev.Pick(r, []string{"post", "put", "patch"})
+			o := b.pickOp(m, false, func(o *opS) bool { return o.node.Get("requestBody") == nil })
+			md := O("schema", b.ref(c, b.root))
+			b.medias = append(b.medias, b.slot(md, b.root))
+			set(o.node, "requestBody", O("content", O("application/json", md)))
+		default:
+			o := b.pickOp("", false, func(o *opS) bool { return len(o.node.Get("responses").Members) < 3 })
+			md := O("schema", b.ref(c, b.root))
+			b.medias = append(b.medias, b.slot(md, b.root))
+			rb := O("description", "uses schema", "content", O("application/json", md))
+			b.resps = append(b.resps, b.slot(rb, b.root))
+			b.addResponse(o, rb)
+		}
+	}
+	return true
+}
+
+func (b *gb) responseBodyWithContent(file string) *V {
+	r := O("description", fmt.Sprintf("response %d", b.id()), "content", O("application/json", b.mediaJSON(file)))
+	b.resps = append(b.resps, b.slot(r, file))
+	return r
+}
+
+func (b *gb) addResponse(o *opS, rb *V) {
+	resp := o.node.Get("responses")
+	for _, code := range shuffled(b.rng, respCodes) {
+		if resp.Get(code) == nil {
+			set(resp, code, rb)
+			return
+		}
+	}
+}
+
+func (b *gb) opUses(o *opS, c *comp) bool {
+	return o.node.Get(fmt.Sprintf("x-c07-uses-%d", c.id)) != nil
+}
+
+func (b *gb) markUse(o *opS, c *comp) {
+	set(o.node, fmt.Sprintf("x-c07-uses-%d", c.id), true)
+}
+
+func shuffled(r *ev.Rand, xs []string) []string {
+	out := append([]string{}, xs...)
+	for i := len(out) - 1; i > 0; i-- {
+		j := r.Intn(i + 1)
+		out[i], out[j] = out[j], out[i]
+	}
+	return out
+}
+
+// ---------------------------------------------------------------- graph
+
+// GenGraph builds one random reference DAG. featured lists the kinds of the components every one of which is referenced from 2..3 sites.
+func GenGraph(rng *ev.Rand) (FileSet, []string) {
+	b := &gb{rng: rng, files: map[string]*V{}}
+	b.root = ev.Pick(rng, []string{"root.yaml", "root.yaml", "root.json"})
+	switch r := rng.Intn(100); {
+	case r < 35:
+		b.layout = "local"
+	case r < 70:
+		b.layout = "two"
+		b.other = ev.Pick(rng, []string{"other.yaml", "shared/other.json", "other.yml"})
+	default:
+		b.layout = "three"
+		b.mid = "sub/b.yaml"
+		b.deep = "sub/dir/c.yaml"
+		b.other = b.mid
+	}
+	root := b.fileRoot(b.root)
+	set(root, "openapi", "3.0.3")
+	set(root, "info", O("title", "c07 graph", "version", "1.0.0"))
+	set(root, "paths", O())
+
+	// a small skeleton
+	b.newOp("get", false)
+	if rng.Chance(60) {
+		b.newOp("post", true)
+	}
+
+	nfeat := 1
+	switch r := rng.Intn(100); {
+	case r < 45:
+		nfeat = 1
+	case r < 70:
+		nfeat = 2
+	default:
+		nfeat = 3 + rng.Intn(3)
+	}
+	var featured []string
+	for i := 0; i < nfeat; i++ {
+		kind := ev.Pick(rng, allKinds)
+		featured = append(featured, kind)
+		home := b.homeFile()
+		var body *V
+		var c *comp
+		switch kind {
+		case "schema":
+			var prim bool
+			body, prim = b.schemaBody(home, 0)
+			c = b.placeHome(kind, body, home)
+			c.prim = prim
+		case "parameter":
+			pp := rng.Chance(20)
+			body = b.paramBody(home, pp)
+			c = b.placeHome(kind, body, home)
+			c.pathP = pp
+		case "header":
+			body = b.headerBody(home)
+			c = b.placeHome(kind, body, home)
+		case "response":
+			body = b.responseBody(home)
+			c = b.placeHome(kind, body, home)
+		case "requestBody":
+			body = b.requestBodyBody(home)
+			c = b.placeHome(kind, body, home)
+		case "example":
+			body = b.exampleBody()
+			c = b.placeHome(kind, body, home)
+		case "securityScheme":
+			body = b.securityBody()
+			c = b.placeHome(kind, body, home)
+		case "pathItem":
+			pp := rng.Chance(25)
+			body = b.pathItemBody(home, pp)
+			c = b.placeHome(kind, body, home)
+			c.pathP = pp
+		}
+		b.comps = append(b.comps, c)
+	}
+	// every component is referenced from k in {2,3} sites
+	for i := 0; i < len(b.comps); i++ { // b.comps may grow while sites are made
+		c := b.comps[i]
+		k := 2 + rng.Intn(2)
+		for tries := 0; c.sites < k && tries < 6; tries++ {
+			b.attach(c, c.sites)
+		}
+	}
+	b.finishOps()
+	if b.v31 {
+		set(root, "openapi", "3.1.0")
+	}
+	// strip harness bookkeeping members
+	for _, o := range b.ops {
+		var keep []jsonv.Member
+		for _, m := range o.node.Members {
+			if !strings.HasPrefix(m.Name, "x-c07-") {
+				keep = append(keep, m)
+			}
+		}
+		o.node.Members = keep
+	}
+	// components last in the root, as people write it
+	var comps *jsonv.Member
+	var rest []jsonv.Member
+	for i := range root.Members {
+		if root.Members[i].Name == "components" {
+			m := root.Members[i]
+			comps = &m
+		} else {
+			rest = append(rest, root.Members[i])
+		}
+	}
+	if comps != nil {
+		rest = append(rest, *comps)
+	}
+	root.Members = rest
+	sort.Strings(featured)
+	return emitSet(b.root, b.files), featured
+}
+
+// placeHome stores a featured component whose body was built relative to file home.
+// The body must stay in `home`; variety of locations comes from the aliases in front of it.
+func (b *gb) placeHome(kind string, body *V, home string) *comp {
+	c := b.placeIn(home, kind, body)
+	r := b.rng
+	// the whole-file placement: only when the body has no references of its own
+	hasRef := false
+	body.Walk(func(x *V) {
+		if x.Kind == jsonv.Object && x.Get("$ref") != nil {
+			hasRef = true
+		}
+	})
+	if b.layout == "two" && !hasRef && r.Chance(15) && kind != "securityScheme" {
+		// move it into its own file
+		f := b.fileRoot(c.file)
+		cont := f.Get(c.ptr[0]).Get(c.ptr[1])
+		var keep []jsonv.Member
+		for _, m := range cont.Members {
+			if m.Name != c.ptr[2] {
+				keep = append(keep, m)
+			}
+		}
+		cont.Members = keep
+		b.pruneEmpty(f, c.ptr[0], c.ptr[1])
+		fn := fmt.Sprintf("parts/%s%d.yaml", kind, c.id)
+		b.files[fn] = body
+		c.file, c.ptr = fn, nil
+		in := map[*V]bool{}
+		body.Walk(func(x *V) { in[x] = true })
+		for _, l := range []*[]slot{&b.resps, &b.medias, &b.objs} {
+			for i := range *l {
+				if in[(*l)[i].node] {
+					(*l)[i].file = fn
+				}
 			}
 		}
 	}
+	// three-file layout: an alias in the deep file in front of a body living in mid
+	if b.layout == "three" && c.file == b.mid && r.Chance(60) {
+		c = b.alias(c, b.deep, "components")
+	}
+	// chains of aliases (refs to refs), total length 2..4
+	if r.Chance(30) {
+		n := 1 + r.Intn(3)
+		for i := 0; i < n; i++ {
+			file := b.root
+			if b.layout != "local" && r.Chance(40) {
+				file = b.other
+			}
+			cont := "components"
+			if file != b.root {
+				cont = "defs"
+			} else if kind == "securityScheme" {
+				cont = "x-defs" // an alias inside components.securitySchemes would itself be a site
+			}
+			c = b.alias(c, file, cont)
+		}
+	}
+	return c
+}
+
+func (b *gb) pruneEmpty(f *V, k1, k2 string) {
+	c1 := f.Get(k1)
+	if c1 == nil {
+		return
+	}
+	if c2 := c1.Get(k2); c2 != nil && len(c2.Members) == 0 {
+		var keep []jsonv.Member
+		for _, m := range c1.Members {
+			if m.Name != k2 {
+				keep = append(keep, m)
+			}
+		}
+		c1.Members = keep
+	}
+	if len(c1.Members) == 0 {
+		var keep []jsonv.Member
+		for _, m := range f.Members {
+			if m.Name != k1 {
+				keep = append(keep, m)
+			}
+		}
+		f.Members = keep
+	}
+}
+
+// alias puts {"$ref": target} as a component of the same kind into file/container and returns it.
+func (b *gb) alias(target *comp, file, container string) *comp {
+	id := b.id()
+	kind := target.kind
+	name := fmt.Sprintf("%sAl%d", strings.ToUpper(kind[:1])+kind[1:3], id)
+	f := b.fileRoot(file)
+	set(ensurePath(f, container, plural[kind]), name, b.ref(target, file))
+	if kind == "pathItem" && file == b.root && container == "components" {
+		b.v31 = true
+	}
+	// the target is referenced through the alias: it needs one more site at most
+	b.comps = append(b.comps, target)
+	a := &comp{kind: kind, id: id, file: file, ptr: []string{container, plural[kind], name}, body: target.body, prim: target.prim, pathP: target.pathP}
+	return a
 }
